@@ -288,16 +288,17 @@ def M(name, fn, what, functions, bounds="", replay=None, tiers=Q, kind="M"):
 
 DE_FN = ["EventLoop::dispatch_events (+ closures #0, #1)"]
 DE_B = "every loop body of dispatch_events executed once from an arbitrary state (loop heads cut), all paths"
+DE_B1 = "dispatch_events for a batch of exactly one event (events loop unwound once, then the loop-exit assumption), all paths to the return"
 M_DE = {
     "pa2": M("pa2_reset", OB.ob_pa2_reset, OB.ob_pa2_reset.__doc__, DE_FN, DE_B, replay=["d3_pending_action_error_path"]),
     "pav": M("pa_value", OB.ob_pa_value, OB.ob_pa_value.__doc__, DE_FN, DE_B, replay=["d3_pending_action_error_path"]),
     "disp1": M("disp1_receiver", OB.ob_disp1_receiver, OB.ob_disp1_receiver.__doc__, DE_FN, DE_B, replay=["c01_routing_scenarios", "c14_lifecycle_scenarios"]),
     "fsub": M("tokens_forget_sub", OB.ob_tokens_forget_sub, OB.ob_tokens_forget_sub.__doc__, DE_FN, DE_B, replay=["c14_lifecycle_scenarios"]),
-    "rm3": M("rm3_removed_check", OB.ob_rm3_removed_check, OB.ob_rm3_removed_check.__doc__, DE_FN, DE_B, replay=["c16_removed_in_callback", "c14_lifecycle_scenarios"]),
+    "rm3": M("rm3_removed_check", OB.ob_rm3_removed_check, OB.ob_rm3_removed_check.__doc__, DE_FN, DE_B, replay=["c16_removed_in_callback", "c14_lifecycle_scenarios", "d13_self_remove_then_error"]),
     "re1": M("re1_no_guards", OB.ob_re1_no_guards, OB.ob_re1_no_guards.__doc__, DE_FN, DE_B, replay=["c08_reentrancy_scenarios"]),
     "lc2": M("lc2_order", OB.ob_lc2_order, OB.ob_lc2_order.__doc__, DE_FN, DE_B + "; the before_sleep loop unrolled once more", replay=["c14_lifecycle_scenarios", "c01_routing_scenarios"]),
-    "err1": M("err1", OB.ob_err1, OB.ob_err1.__doc__, DE_FN, DE_B, replay=["d3_pending_action_error_path"]),
-    "err2": M("err2_batch", OB.ob_err2_batch, OB.ob_err2_batch.__doc__, DE_FN, DE_B, replay=["d8_error_drops_batch_remainder"]),
+    "err1": M("err1", OB.ob_err1, OB.ob_err1.__doc__, DE_FN, DE_B1, replay=["d3_pending_action_error_path", "d8_error_drops_batch_remainder"]),
+    "err2": M("err2_batch", OB.ob_err2_batch, OB.ob_err2_batch.__doc__, DE_FN, DE_B1, replay=["d8_error_drops_batch_remainder", "d13_self_remove_then_error"]),
 }
 
 H_FN = ["LoopHandle::remove", "LoopHandle::disable", "LoopHandle::update", "LoopHandle::enable",
